@@ -17,6 +17,10 @@ VERIF = os.path.dirname(os.path.dirname(os.path.abspath(__file__)))
 sys.path.insert(0, os.path.dirname(os.path.abspath(__file__)))
 
 
+def _one_line(msg) -> str:
+    return " ".join(str(msg).split())
+
+
 def _plugins():
     import extractors
     mods = []
@@ -33,7 +37,8 @@ def extract() -> dict:
         try:
             facts[mod.KEY] = mod.extract(REPO)
         except Exception as e:  # noqa: BLE001  (an extractor that cannot read the tree is reported, never fatal here)
-            facts[mod.KEY] = {"extraction_failed": f"{type(e).__name__}: {e}"}
+            # one line: the message is rendered into a `--` comment of Generated.lean (a newline would end the comment and break the file)
+            facts[mod.KEY] = {"extraction_failed": " ".join(f"{type(e).__name__}: {e}".split())}
     return facts
 
 
@@ -42,7 +47,7 @@ def render(facts: dict) -> str:
     for mod in _plugins():
         f = facts.get(mod.KEY)
         if isinstance(f, dict) and "extraction_failed" in f:
-            bodies.append(f"-- extraction of {mod.KEY} failed: {f['extraction_failed']}\n")
+            bodies.append(f"-- extraction of {mod.KEY} failed: {_one_line(f['extraction_failed'])}\n")
             continue
         for i in mod.IMPORTS:
             if i not in imports:
@@ -59,7 +64,7 @@ def section_of_line(facts: dict, line: int) -> str | None:
     pos = 0
     for mod in _plugins():
         f = facts.get(mod.KEY)
-        body = (f"-- extraction of {mod.KEY} failed: {f['extraction_failed']}\n" if isinstance(f, dict) and "extraction_failed" in f
+        body = (f"-- extraction of {mod.KEY} failed: {_one_line(f['extraction_failed'])}\n" if isinstance(f, dict) and "extraction_failed" in f
                 else mod.render(f))
         at = text.find(body, pos)
         if at < 0:
